@@ -6,7 +6,8 @@ CHECK = {
     "rule": ("stage hull: case = one seeded input (72% point clouds of 4..1e5 points from eleven families: uniform, ball, "
              "cospherical, integer lattice block, tight clusters with exact duplicates, co-circular rings, cube surface, "
              "nearly flat facet under an apex, simplex lattice, collinear points on cone/cylinder/hyperboloid rulings, shell+core; 12% of them thin slabs/needles; 28% one Manifold "
-             "via Hull() or several via Hull(vector)) under identity/scaled/rotated/anisotropic/far-translated placement. "
+             "via Hull() or several via Hull(vector), a third of the latter together with a RefineToLength copy of the "
+             "first operand = exact duplicates plus collinear/coplanar points) under identity/scaled/rotated/anisotropic/far-translated placement. "
              "stage degen: case idx%4 selects single point / lattice line / lattice plane / fewer than 4 points, all on "
              "small-integer coordinates so 'spans no volume' is exact. stage mink: case idx%8 enumerates "
              "{Sum,Difference} x {A convex?} x {B convex?}; operands are primitives, hulls or extruded concave polygons "
@@ -14,7 +15,10 @@ CHECK = {
              "origin, B is smaller or larger than A. distinct_nontrivial counts distinct signatures of cases in which the "
              "oracle decided something on a non-empty result: hull = (input kind, family, log2 #points, log4 #triangles); "
              "degen = (family, size class) when the hull was empty as required; mink = (op, convexity combination, regime, "
-             "operand kinds, placement of A) with at least 10 sample points decided outside every guard band."),
+             "operand kinds, placement of A) with at least 10 sample points decided outside every guard band. In "
+             "Minkowski violation keys the convexity combination is the library's own IsConvex() verdict (it selects the "
+             "branch of minkowski.cpp) and the regime is a coordinate-free fact about the operands (origin not in A; B's "
+             "box not smaller than A's in any axis)."),
     "min_nontrivial": {"quick": 120, "thorough": 300},
     "exhaustive": {"quick": False, "thorough": False},
     "stages": [
@@ -28,7 +32,7 @@ CHECK = {
          "params": {"mode": "degen"},
          "case_timeout": 120},
         {"name": "mink", "variant": "asan", "harness": "c16_hull_minkowski.cpp",
-         "cases": {"quick": 160, "thorough": 1600},
+         "cases": {"quick": 96, "thorough": 1600},
          "params": {"mode": "mink"},
          "case_timeout": 600},
     ],
@@ -54,6 +58,11 @@ CHECK = {
         "Minkowski: guard band tau = 1e-6*extent + 100*max(GetTolerance of A, B, result) around every surface; a sample "
         "decides only if its winding number is within 0.01 of 0 or 1 and it is farther than tau from the surface it is "
         "classified against; reach(B) = max vertex norm of B (exact for a polyhedron)",
+        "an edge is reported as concave only if, besides the plane test at 10*eps_hull, the segment between the two "
+        "wing-tip vertices leaves the solid (winding number 0 and farther than the threshold from the surface): a "
+        "flipped coplanar triangle (zero-thickness fold inside a flat facet) is counted, not judged",
+        "the Minkowski stage reads Manifold::Impl::IsConvex() of both operands through the internal headers only to "
+        "label violation keys; no verdict depends on it",
         "g++ -fsanitize=address,undefined build of the tree, -DNDEBUG, MANIFOLD_PAR=-1 (serial); every run is also a "
         "memory/UB monitor of quickhull.cpp and minkowski.cpp",
     ],
